@@ -205,6 +205,12 @@ class Impl:
             rec.append(_o)
             return False
         object.__setattr__(obj, "receive", fake_receive)
+        if hasattr(obj, "restore_backup"):
+            # DatabaseService's data operations run from apply_timestep (backup at timestep 1, restore when a fix completes);
+            # they send over the network and raise AttributeError when no backup server is configured or `arp` was
+            # uninstalled (database / session-manager defects, C17/C14's subject).  Not lifecycle: stubbed.
+            object.__setattr__(obj, "restore_backup", lambda *a, **k: False)
+            object.__setattr__(obj, "backup_database", lambda *a, **k: False)
 
     def uid(self, obj) -> int:
         for i, o in enumerate(self.objs):
